@@ -184,6 +184,17 @@ def judge_rand(kws, data, ctx, case):
     ctx.count("random_sets")
     got = kwmod.find_keywords("some.label", list(kws), data)
     want = compare("some.label", kws, data, got, ctx, case, "find_keywords")
+    # history: another buffer of the same length allocated right after this one is released (same address in CPython)
+    if len(data) > 2 and ctx.counters["random_sets"] % 3 == 0:
+        other = bytes(reversed(data)) if ctx.counters["random_sets"] % 2 else bytes(c ^ 1 if c > 32 else c for c in data)
+        oh = runner.hx(other)
+        first = bytes(data)
+        kwmod.find_keywords("some.label", list(kws), first)
+        del first
+        second = bytes.fromhex(oh)
+        ctx.count("address_reuse_histories")
+        compare("some.label", kws, second, kwmod.find_keywords("some.label", list(kws), second), ctx,
+                {"kind": "rand", "data": oh, "keywords": case["keywords"]}, "find_keywords (after a released buffer of equal length)")
     if want:
         ctx.nontrivial(repr((kws, data)))
     if ctx.counters.get("random_sets", 0) % 97 == 1:
